@@ -2,6 +2,7 @@
 
 from __future__ import annotations
 
+import itertools
 import warnings
 
 import numpy
@@ -41,6 +42,17 @@ def run(check: Check) -> None:
     from . import ch_c20_run
 
     ch_c20_run.run_c09(check, thorough)
+    # categorical factors whose LEVELS are numbers / booleans, arriving as plain numeric columns holding those very values
+    # (ground: numpy.unique / set membership on the values is beyond the symbolic engine's reach)
+    for formula, col, how in itertools.product(("G", "G:a", "a + G + G:a", "H + a", "b:H"), ("G", "H"), ("int", "float", "empty", "bool")):
+        if col not in formula:
+            continue
+        p = {"kind": "c09_numeric_levels", "formula": formula, "col": col, "how": how}
+        bad = replays.run(p)
+        check.case(f"{formula}:{col}->{how}")
+        check.obligation("kind_change.numeric_levels/ground", "refuted" if bad else "ground")
+        if bad:
+            check.violation(f"kind-change::numeric-levelled {col}->{how}::{bad.split(':', 1)[0]}", bad, p)
     for formula in FORMULAS:
         for out in ("pandas", "numpy"):
             mm0 = model_matrix(formula, dtrain, output=out)
